@@ -230,3 +230,52 @@ Example singlet_wf :
 Proof.
   repeat constructor; unfold curv; try (destruct (Req_EM_T _ _); [lra|reflexivity]); try lra; reflexivity.
 Qed.
+
+(** ** cardinal points from the system matrix *)
+Lemma last_map {A B} (f : A -> B) (l : list A) (a : A) (d : B) :
+  l <> [] -> last (map f l) d = f (last l a).
+Proof.
+  induction l as [|x l IH]; [congruence|]. intros _. destruct l as [|y l]; [reflexivity|].
+  change (last (map f (x :: y :: l)) d) with (last (map f (y :: l)) d).
+  change (last (x :: y :: l) a) with (last (y :: l) a). apply IH. discriminate.
+Qed.
+
+Lemma sysmats_nonempty s ss z acc : sysmats (s :: ss) z acc <> [].
+Proof. cbn. discriminate. Qed.
+
+(** back focal length and back focal distance from the system matrix [[A B][C D]] of the surfaces
+    (transfer from one unit in front of the first surface): f2 = -1/C (before the mirror-parity sign),
+    F2 = -A/C *)
+Theorem focal_from_matrix pobj psrest aobj asrest z1 :
+  Forall2 wf_surf (pobj :: psrest) (aobj :: asrest) ->
+  a_obj aobj = true -> asrest <> [] ->
+  pos (O:=XOps) (pobj :: psrest) 1 = Fin z1 ->
+  let m := sysmat (aobj :: asrest) (z1 - 1) in
+  mc m <> 0 ->
+  f2_signed (pobj :: psrest) = Fin (- 1 / mc m) /\
+  F2 (pobj :: psrest) = Fin (- ma m / mc m).
+Proof.
+  intros HW Hobj Hne Hpos m Hc.
+  assert (Htr : tg (O:=XOps) (pobj :: psrest) (Fin 1) (Fin 0) (xsub (Fin z1) (Fin 1)) false 0
+                = map finyu (map (fun mm => mapply mm (1, 0)) (sysmats (aobj :: asrest) (z1 - 1) mid))).
+  { unfold tg. cbn [skipn]. cbn [xsub xneg xadd].
+    replace (z1 + - (1)) with (z1 - 1) by ring.
+    etransitivity; [exact (ptrace_is_atrace _ _ HW 1 0 (z1 - 1) 0)|]. rewrite atrace_abcd. reflexivity. }
+  assert (Hlast : lastyu (O:=XOps) (map finyu (map (fun mm => mapply mm (1, 0)) (sysmats (aobj :: asrest) (z1 - 1) mid)))
+                  = finyu (mapply m (1, 0))).
+  { unfold lastyu. rewrite map_map.
+    rewrite (last_map (fun x => finyu (mapply x (1, 0))) _ mid); [|apply sysmats_nonempty].
+    rewrite sysmats_last. unfold m. f_equal. f_equal.
+    unfold mmul, mid; destruct (sysmat _ _); simpl; f_equal; ring. }
+  assert (Hfirst : firstyu (O:=XOps) (map finyu (map (fun mm => mapply mm (1, 0)) (sysmats (aobj :: asrest) (z1 - 1) mid)))
+                   = (Fin 1, Fin 0)).
+  { cbn [sysmats map firstyu hd]. unfold surf_matrix. rewrite Hobj.
+    unfold finyu, mapply, mmul, mid; simpl. f_equal; f_equal; ring. }
+  unfold f2_signed, F2. xops. rewrite Hpos.
+  change (xsub (Fin z1) (Fin (IZR 1))) with (xsub (Fin z1) (Fin 1)).
+  rewrite Htr, Hlast, Hfirst. unfold finyu, mapply. cbn [fst snd xneg xdiv].
+  replace (mc m * 1 + md m * 0) with (mc m) by ring.
+  replace (ma m * 1 + mb m * 0) with (ma m) by ring.
+  destruct (Req_EM_T (mc m) 0) as [E|E]; [contradiction|].
+  split; reflexivity.
+Qed.
